@@ -146,7 +146,7 @@ PROPS = {
         "lean": "Originium.Props.C10",
         "suites": ["key", "levels"],
         "skeleton_funcs": [],
-        "trusted_base": COMMON_TB + ["the bloom filter enters as an arbitrary predicate without false negatives (C16)"] + ["extract/gotrans.go (DESIGN section 14) regenerates GenLSM.searchLowerBound (levelManager.searchLowerBound) from /repo on every run; the bloom filter, Index.LowerBound and fetchAndSearchLowerBound are parameters instantiated with the table model; LSMTie.search_tie is part of this property's module; also GenTable.dataLowerIdx / indexLowerIdx (the binary searches Data.LowerBound and Index.LowerBound over Go ints) with TableTie; GenTable.buildBlocks / buildIndex (the two loops of table.Build: block cutting; block encoding, index entries and data region) with TableTie.buildBlocks_eq / buildIndex_eq / ixFrom_cuts (Data.Encode is a function parameter, the byte buffer a list)"],
+        "trusted_base": COMMON_TB + ["the bloom filter enters as an arbitrary predicate without false negatives (C16)"] + ["extract/gotrans.go (DESIGN section 14) regenerates GenTypes.compareKeys / isSameKey (types.CompareKeys / IsSameKey) from /repo on every run; strings.Compare is the byte order cmpBytes, ParseKey / ParseTs are the model's parseKey? / parseTs (key suite; ParseKey panics on a key without @, the tie is stated where it does not); TypesTie.compareKeys_neg_iff_vlt is part of this property's module", "extract/gotrans.go (DESIGN section 14) regenerates GenLSM.searchLowerBound (levelManager.searchLowerBound) from /repo on every run; the bloom filter, Index.LowerBound and fetchAndSearchLowerBound are parameters instantiated with the table model; LSMTie.search_tie is part of this property's module; also GenTable.dataLowerIdx / indexLowerIdx (the binary searches Data.LowerBound and Index.LowerBound over Go ints) with TableTie; GenTable.buildBlocks / buildIndex (the two loops of table.Build: block cutting; block encoding, index entries and data region) with TableTie.buildBlocks_eq / buildIndex_eq / ixFrom_cuts (Data.Encode is a function parameter, the byte buffer a list)"],
         "assumptions": ["tables hold strictly sorted entry lists (the flush of a skiplist, or a compaction output: C17, C09_sorted_nonempty)"],
         "explanation": "searchLowerBound translated from the Go source on every run and proved to be the model's search (C10_code_*); binary searches modelled literally (BS.loop) and proved equal to a linear scan; lookup over all tables proved to be the brute-force newest version",
     },
@@ -154,7 +154,7 @@ PROPS = {
         "lean": "Originium.Props.C11",
         "suites": ["key", "codec"],
         "skeleton_funcs": ["table:Data.Encode", "table:Index.Encode", "table:Footer.Encode", "table:Meta.Encode", "table:Build", "wal:WAL.Write", "wal:WAL.Read"],
-        "trusted_base": COMMON_TB + ["extract/gotrans.go (DESIGN section 14) regenerates GenCodec.encodeData (Data.Encode: the loop over the entries with the size guard and the seven writes per entry) from /repo on every run; CodecTie.encodeData_eq (= the model's encodeData followed by the compression) is part of this property's module; the error writer on a bytes.Buffer appends and cannot fail, utils.LCP is the model's lcp (compared by the codec suite), utils.Compress + bytes.Clone is the function comp; GenCodec.decodeData (Data.Decode: the record loop through the sticky error reader) with CodecTie.loop_step / decodeData_eq (= the model's decData on every input) and code_roundtrip; Go's prevKey[:lcp] panics when lcp exceeds the previous key, the translation takes what is there (no encoder output does that); GenCodec.encodeIndex / decodeIndex (Index.Encode / Index.Decode) with CodecTie.encodeIndex_eq / decodeIndex_eq / index_code_roundtrip; GenCodec.encodeFooter / decodeFooter (Footer.Encode / Footer.Decode) with CodecTie.encodeFooter_eq / decodeFooter_eq; GenCodec.encodeMeta / decodeMeta (Meta.Encode / Meta.Decode; CreatedUnix is a non-negative time, written as a Nat) with CodecTie.encodeMeta_eq / decodeMeta_eq; a short read through the error reader is an error, consumes what was left and leaves the target unchanged (io.ReadFull)",
+        "trusted_base": COMMON_TB + ["extract/gotrans.go (DESIGN section 14) regenerates GenCodec.encodeData (Data.Encode: the loop over the entries with the size guard and the seven writes per entry) from /repo on every run; CodecTie.encodeData_eq (= the model's encodeData followed by the compression) is part of this property's module; the error writer on a bytes.Buffer appends and cannot fail, utils.LCP is translated too (Generated/Types.lean, GenTypes.lcp) and proved equal to the model's lcp (TypesTie.lcp_eq, C11_code_lcp; also compared by the codec suite), utils.Compress + bytes.Clone is the function comp; GenCodec.decodeData (Data.Decode: the record loop through the sticky error reader) with CodecTie.loop_step / decodeData_eq (= the model's decData on every input) and code_roundtrip; Go's prevKey[:lcp] panics when lcp exceeds the previous key, the translation takes what is there (no encoder output does that); GenCodec.encodeIndex / decodeIndex (Index.Encode / Index.Decode) with CodecTie.encodeIndex_eq / decodeIndex_eq / index_code_roundtrip; GenCodec.encodeFooter / decodeFooter (Footer.Encode / Footer.Decode) with CodecTie.encodeFooter_eq / decodeFooter_eq; GenCodec.encodeMeta / decodeMeta (Meta.Encode / Meta.Decode; CreatedUnix is a non-negative time, written as a Nat) with CodecTie.encodeMeta_eq / decodeMeta_eq; a short read through the error reader is an error, consumes what was left and leaves the target unchanged (io.ReadFull)",
                                      "S2 (klauspost/compress/s2) as an abstract pair with S2Law: decompressing a concatenation of compressed chunks gives the concatenation of the chunks",
                                      "frugal/thrift: the binary layout of types.Entry is written out in the model and compared byte for byte; the library decoder on valid input is assumed to invert it",
                                      "sync.Pool / bytes.Buffer: the ownership model of Pool.lean; the static fact 'encoders return bytes.Clone' is re-extracted every run"],
@@ -211,8 +211,8 @@ PROPS = {
         "lean": "Originium.Props.C17",
         "suites": ["key", "skiplist"],
         "skeleton_funcs": [],
-        "trusted_base": COMMON_TB + ["the pointer model identifies an element by its key and bounds its loops by a fuel argument; Go pointers, allocation and the garbage collector are not modelled"],
-        "assumptions": ["keys are versioned keys key@ts; CompareKeys on them is the (user asc, ts desc) order (Key.compareKeys_keyWithTs, suite key)"],
+        "trusted_base": COMMON_TB + ["the pointer model identifies an element by its key and bounds its loops by a fuel argument; Go pointers, allocation and the garbage collector are not modelled", "extract/gotrans.go (DESIGN section 14) regenerates GenTypes.compareKeys / isSameKey (types.CompareKeys / IsSameKey) from /repo on every run; strings.Compare is the byte order cmpBytes, ParseKey / ParseTs are the model's parseKey? / parseTs (key suite; ParseKey panics on a key without @, the tie is stated where it does not); TypesTie.compareKeys_neg_iff_vlt is part of this property's module"],
+        "assumptions": ["keys are versioned keys key@ts; CompareKeys on them is the (user asc, ts desc) order (Key.compareKeys_keyWithTs, suite key; C17_code_key_order for the translated CompareKeys)"],
         "explanation": "pointer-level model of Set/Delete/Get/LowerBound/Scan/All (next pointers, update array, relinking, s.level) proved to represent the tower list; level-descending search proved to find the first node >= target for all heights; refinement to a sorted association list",
     },
 }
